@@ -637,6 +637,8 @@ inductive FSOp where
   /-- `NetcodeClientTransport::update(duration)` with the datagrams the ADVERSARY queued at the client's socket -/
   | cliUpdate (d : Nat) (inbox : List Dgram)
   | cliSendPackets
+  /-- `NetcodeClientTransport::disconnect` -/
+  | cliTransportDisconnect
   /-- `RenetServer::send_message(cid, ..) / receive_message(cid, ..) / update / disconnect(cid)` -/
   | srvSend (ch : Nat) (m : Bytes)
   | srvRecv (ch : Nat)
@@ -645,6 +647,8 @@ inductive FSOp where
   /-- `NetcodeServerTransport::update(duration)` with the datagrams the ADVERSARY queued at the server's socket -/
   | srvUpdate (d : Nat) (inbox : List Dgram)
   | srvSendPackets
+  /-- `NetcodeServerTransport::disconnect_all` -/
+  | srvDisconnectAll
   deriving Repr, DecidableEq
 
 def trackSeq (cid : Nat) (rs : Server) (old : Nat) : Nat :=
@@ -698,6 +702,14 @@ def FS.step (a : AEAD) (cid : Nat) (fs : FS) : FSOp → Option FS
     match clientSendPackets a fs.c with
     | .ok (_, g', out) => some { fs with c := g', emC := fs.emC ++ out.toList, sealedC := fs.sealedC ++ cliSeals a fs.c }
     | _ => none
+  | .cliTransportDisconnect =>
+    match clientDisconnect a fs.c with
+    | .ok (g', _) => some { fs with c := g' }
+    | _ => none
+  | .srvDisconnectAll =>
+    match serverDisconnectAll a fs.s with
+    | .ok (g', _) => some { fs with s := g', ySeq := trackSeq cid g'.renet fs.ySeq }
+    | _ => none
   | .srvSend ch m =>
     match fs.s.renet.sendMessage cid ch m with
     | .ok rs' =>
@@ -740,6 +752,18 @@ def FS.run (a : AEAD) (cid : Nat) (fs : FS) : List FSOp → Option FS
     match fs.step a cid op with
     | some fs' => fs'.run a cid ops
     | none => none
+
+theorem FS.run_append (a : AEAD) (cid : Nat) (fs : FS) : ∀ (l1 l2 : List FSOp),
+    fs.run a cid (l1 ++ l2) = (fs.run a cid l1).bind (fun fs' => fs'.run a cid l2) := by
+  intro l1
+  induction l1 generalizing fs with
+  | nil => intro l2; rfl
+  | cons op l1 ih =>
+    intro l2
+    simp only [List.cons_append, FS.run]
+    cases fs.step a cid op with
+    | none => rfl
+    | some fs' => exact ih fs' l2
 
 /-! ### the per-run hypotheses
 
@@ -809,6 +833,132 @@ def runOK (a : AEAD) (cid : Nat) (fs : FS) : List FSOp → Bool
     | some fs' => runOK a cid fs' ops
     | none => true
 
+
+/-! the two hypotheses separately (`runOK` is their conjunction, `runOK_eq`) -/
+
+def srvResNF (cid : Nat) (L : List Sealed) (ns : NetcodeServer) (addr : Addr) (buf : Bytes) : ServerResult → Bool
+  | .payload id _ =>
+    if id = cid then
+      match findClientByAddr ns.clients addr with
+      | some (_, c) => hasRec L buf c.receiveKey ns.protocolId
+      | none => false
+    else true
+  | _ => true
+
+def srvResSS (cid : Nat) : ServerResult → Bool
+  | .clientConnected id _ _ _ => id ≠ cid
+  | _ => true
+
+theorem srvResOK_eq (cid : Nat) (L : List Sealed) (ns : NetcodeServer) (addr : Addr) (buf : Bytes) (r : ServerResult) :
+    srvResOK cid L ns addr buf r = (srvResNF cid L ns addr buf r && srvResSS cid r) := by
+  cases r <;> simp [srvResOK, srvResNF, srvResSS]
+
+def srvInboxNF (a : AEAD) (cid : Nat) (L : List Sealed) : NetcodeServer → List Dgram → Bool
+  | _, [] => true
+  | ns, (addr, buf) :: rest =>
+    match ns.processPacket a addr buf with
+    | .ok (r, ns') => srvResNF cid L ns addr buf r && srvInboxNF a cid L ns' rest
+    | _ => true
+
+def srvInboxSS (a : AEAD) (cid : Nat) : NetcodeServer → List Dgram → Bool
+  | _, [] => true
+  | ns, (addr, buf) :: rest =>
+    match ns.processPacket a addr buf with
+    | .ok (r, ns') => srvResSS cid r && srvInboxSS a cid ns' rest
+    | _ => true
+
+theorem and4 (p q r s : Bool) : ((p && q) && (r && s)) = ((p && r) && (q && s)) := by
+  cases p <;> cases q <;> cases r <;> cases s <;> rfl
+
+theorem srvInboxOK_eq (a : AEAD) (cid : Nat) (L : List Sealed) : ∀ (l : List Dgram) (ns : NetcodeServer),
+    srvInboxOK a cid L ns l = (srvInboxNF a cid L ns l && srvInboxSS a cid ns l)
+  | [], _ => rfl
+  | (addr, buf) :: rest, ns => by
+    simp only [srvInboxOK, srvInboxNF, srvInboxSS]
+    cases ns.processPacket a addr buf with
+    | ok v =>
+      obtain ⟨r, ns'⟩ := v
+      simp only
+      rw [srvResOK_eq, srvInboxOK_eq a cid L rest ns', and4]
+    | err e => rfl
+    | panic m => rfl
+
+/-- `NoForgery` at one operation -/
+def opNF (a : AEAD) (cid : Nat) (fs : FS) : FSOp → Bool
+  | .srvUpdate d inbox =>
+    match fs.s.netcode.update d with
+    | .ok ns0 => srvInboxNF a cid fs.sealedC ns0 inbox
+    | _ => true
+  | .cliUpdate _ inbox =>
+    match fs.c.netcode.disconnectReason, fs.c.renet.disconnectReason with
+    | none, none => cliInboxOK a fs.sealedS fs.c.netcode inbox
+    | _, _ => true
+  | _ => true
+
+/-- `SingleSession` at one operation -/
+def opSS (a : AEAD) (cid : Nat) (fs : FS) : FSOp → Bool
+  | .srvUpdate d inbox =>
+    match fs.s.netcode.update d with
+    | .ok ns0 => srvInboxSS a cid ns0 inbox
+    | _ => true
+  | _ => true
+
+theorem opOK_eq (a : AEAD) (cid : Nat) (fs : FS) (op : FSOp) : opOK a cid fs op = (opNF a cid fs op && opSS a cid fs op) := by
+  cases op <;> simp only [opOK, opNF, opSS, Bool.and_true]
+  case srvUpdate d inbox =>
+    cases fs.s.netcode.update d with
+    | ok ns0 => exact srvInboxOK_eq a cid _ inbox ns0
+    | err e => rfl
+    | panic m => rfl
+
+def runNF (a : AEAD) (cid : Nat) (fs : FS) : List FSOp → Bool
+  | [] => true
+  | op :: ops =>
+    opNF a cid fs op &&
+    match fs.step a cid op with
+    | some fs' => runNF a cid fs' ops
+    | none => true
+
+def runSS (a : AEAD) (cid : Nat) (fs : FS) : List FSOp → Bool
+  | [] => true
+  | op :: ops =>
+    opSS a cid fs op &&
+    match fs.step a cid op with
+    | some fs' => runSS a cid fs' ops
+    | none => true
+
+theorem runOK_eq (a : AEAD) (cid : Nat) : ∀ (ops : List FSOp) (fs : FS),
+    runOK a cid fs ops = (runNF a cid fs ops && runSS a cid fs ops)
+  | [], _ => rfl
+  | op :: ops, fs => by
+    simp only [runOK, runNF, runSS]
+    rw [opOK_eq]
+    cases fs.step a cid op with
+    | none => simp
+    | some fs' => simp only; rw [runOK_eq a cid ops fs', and4]
+
+/-- **`NoForgeryRun`**: whenever, in this run, `NetcodeServer::process_packet` surfaces `Payload{client_id = cid}` or
+    the client's `NetcodeClient::process_packet` surfaces a payload, the datagram it was given is the datagram of a
+    ghost record of the PEER's `generate_payload_packet` made earlier in this run, sealed under the key and protocol id
+    the receiver opened it with. -/
+def NoForgeryRun (a : AEAD) (cid : Nat) (fs : FS) (ops : List FSOp) : Prop := runNF a cid fs ops = true
+
+/-- **`SingleSessionRun`**: `NetcodeServer::process_packet` never returns `ClientConnected{client_id = cid}` in this run. -/
+def SingleSessionRun (a : AEAD) (cid : Nat) (fs : FS) (ops : List FSOp) : Prop := runSS a cid fs ops = true
+
+instance (a : AEAD) (cid : Nat) (fs : FS) (ops : List FSOp) : Decidable (NoForgeryRun a cid fs ops) :=
+  inferInstanceAs (Decidable (_ = true))
+instance (a : AEAD) (cid : Nat) (fs : FS) (ops : List FSOp) : Decidable (SingleSessionRun a cid fs ops) :=
+  inferInstanceAs (Decidable (_ = true))
+
+theorem runOK_split {a : AEAD} {cid : Nat} {fs : FS} {ops : List FSOp} (h : runOK a cid fs ops = true) :
+    NoForgeryRun a cid fs ops ∧ SingleSessionRun a cid fs ops := by
+  rw [runOK_eq, Bool.and_eq_true] at h
+  exact h
+
+theorem runOK_of {a : AEAD} {cid : Nat} {fs : FS} {ops : List FSOp} (h1 : NoForgeryRun a cid fs ops)
+    (h2 : SingleSessionRun a cid fs ops) : runOK a cid fs ops = true := by
+  rw [runOK_eq, h1, h2]; rfl
 
 /-! ### 3c. every `FS` step is a `Duo` run -/
 
@@ -970,6 +1120,26 @@ theorem srvInboxOK_step {a : AEAD} (hl : a.Laws) {cid : Nat} {L : List Sealed} {
   | none => trivial
   | packetToSend addr' p => trivial
   | clientDisconnected id addr' p => trivial
+
+theorem dcF_good (a : AEAD) (cid : Nat) : ∀ (ns : NetcodeServer) (x : Nat) (_rest : List Nat) (r : ServerResult)
+    (ns' : NetcodeServer), True → GI.dcF a ns x = .ok (r, ns') → ResGood cid (fun _ => False) r ∧ True := by
+  intro ns x _ r ns' _ hx
+  refine ⟨?_, trivial⟩
+  obtain ⟨-, hin, hout⟩ := GI.disconnect_spec hx
+  by_cases hm : x ∈ GI.ids ns.clients
+  · obtain ⟨ad, p, e⟩ := hin hm
+    subst e; trivial
+  · obtain ⟨e, -⟩ := hout hm
+    subst e; trivial
+
+/-- `NetcodeServerTransport::disconnect_all`: at most the removal of Y's table entry -/
+theorem serverDisconnectAll_sim {a : AEAD} {cfg : Cfg} {cid : Nat} {g g' : ServerGlue} {out : Array Dgram} {d : Duo}
+    (h : serverDisconnectAll a g = .ok (g', out)) (hs : SrvRel cid g.renet d) (hi : DInv cfg d) :
+    ∃ dops d', d.run dops = some d' ∧ SrvRel cid g'.renet d' ∧ YOnly d d' ∧ d'.y.packetSeq = d.y.packetSeq := by
+  unfold serverDisconnectAll at h
+  rw [GI.idLoop_eq] at h
+  exact handleLoop_sim (cfg := cfg) (cid := cid) (GI.dcF a) (fun _ _ => True) (fun _ => False) (dcF_good a cid)
+    _ g g' _ out d h trivial (fun _ hp => hp.elim) hs hi
 
 /-- **`NetcodeServerTransport::update` is a run of deliveries of emitted packets to Y** (and possibly the removal of
     Y's table entry), under the run hypotheses for its inbox -/
@@ -1394,6 +1564,30 @@ theorem step_sim {a : AEAD} (hl : a.Laws) {cfg : Cfg} {cid : Nat} {fs fs' : FS} 
       obtain ⟨l, d', r, s', ⟨y', dl, rfl⟩, hq⟩ := serverUpdate_sim hl (cfg := cfg) ho hok hsC hsrv hi
       exact ⟨l, _, r, ⟨rfl, s', trackSeq_rel s' (hyseq.trans hq.symm), rfl, rfl, rfl, rfl, rfl, rfl, hsC, hsS⟩⟩
     · cases hs
+  | cliTransportDisconnect =>
+    simp only [FS.step] at hs
+    split at hs
+    · rename_i g' out ho
+      cases hs
+      refine ⟨[], _, rfl, ?_⟩
+      have hren : g'.renet = fs.c.renet := by
+        rw [GI.clientDisconnect_spec] at ho
+        split at ho
+        · cases ho; rfl
+        · split at ho
+          · cases ho
+          · cases ho; rfl
+          · cases ho; rfl
+      exact ⟨hren.symm, hsrv, hyseq, rfl, rfl, rfl, rfl, rfl, rfl, hsC, hsS⟩
+    · cases hs
+  | srvDisconnectAll =>
+    simp only [FS.step] at hs
+    split at hs
+    · rename_i g' out ho
+      cases hs
+      obtain ⟨l, d', r, s', ⟨y', dl, rfl⟩, hq⟩ := serverDisconnectAll_sim (cfg := cfg) ho hsrv hi
+      exact ⟨l, _, r, ⟨rfl, s', trackSeq_rel s' (hyseq.trans hq.symm), rfl, rfl, rfl, rfl, rfl, rfl, hsC, hsS⟩⟩
+    · cases hs
   | srvSendPackets =>
     simp only [FS.step] at hs
     split at hs
@@ -1479,6 +1673,61 @@ theorem rel_of_fresh (a : AEAD) {cfg : Cfg} {cid : Nat} {fs : FS} (h : RenetFres
   · intro e he; rw [h.sealedC] at he; cases he
   · intro e he; rw [h.sealedS] at he; cases he
 
+/-- **Established session** for client `cid`: the message layer is fresh (`RenetFresh`), and on the netcode layer the
+    client is `Connected`, the server holds a connected slot for `cid` whose keys mirror the client's (the slot's receive
+    key is the client's send key and vice versa), both use the same protocol id; nothing has been emitted yet.
+    (The theorems use only the `RenetFresh` part: key agreement is what makes genuine datagrams open at all — it is
+    needed for the session to make progress and for the examples, not for safety, because `NoForgeryRun` names the
+    key the receiver opened with.) -/
+structure Established (cfg : Cfg) (cid : Nat) (fs : FS) : Prop extends RenetFresh cfg cid fs where
+  cliConnected : fs.c.netcode.state = .connected
+  cliId : fs.c.netcode.connectToken.clientId = cid
+  slot : ∃ (i : Nat) (conn : Connection), fs.s.netcode.clients[i]? = some (some conn) ∧ conn.clientId = cid ∧ conn.state = .connected ∧
+    conn.receiveKey = fs.c.netcode.connectToken.clientToServerKey ∧
+    conn.sendKey = fs.c.netcode.connectToken.serverToClientKey
+  proto : fs.s.netcode.protocolId = fs.c.netcode.connectToken.protocolId
+  emC : fs.emC = []
+  emS : fs.emS = []
+
+/-- the state with empty histories -/
+def FS.start (c : ClientGlue) (s : ServerGlue) : FS :=
+  { c := c, s := s, emC := [], emS := [], sealedC := [], sealedS := [], ySeq := 0,
+    subC := fun _ => [], subCU := fun _ => [], obtS := fun _ => [], subS := fun _ => [], subSU := fun _ => [],
+    obtC := fun _ => [] }
+
+/-- `Established` from facts a kernel evaluation can check (the client's slot is slot 0, the server's table holds
+    only this client) -/
+theorem established_of {cfg : Cfg} {cid : Nat} {c : ClientGlue} {s : ServerGlue}
+    (h : c.renet = (Conn.fromChannels cfg.budget cfg.send cfg.recv).setConnected ∧
+      s.renet.conns = [(cid, (Conn.fromChannels cfg.budget cfg.recv cfg.send).setConnected)] ∧
+      c.netcode.state = .connected ∧ c.netcode.connectToken.clientId = cid ∧
+      (s.netcode.clients[0]?).map (fun o => o.map fun x => (x.clientId, x.state, x.receiveKey, x.sendKey)) =
+        some (some (cid, .connected, c.netcode.connectToken.clientToServerKey,
+          c.netcode.connectToken.serverToClientKey)) ∧
+      s.netcode.protocolId = c.netcode.connectToken.protocolId) : Established cfg cid (FS.start c s) := by
+  obtain ⟨f1, f2, f3, f4, f5, f6⟩ := h
+  have hslot : ∃ (i : Nat) (conn : Connection), s.netcode.clients[i]? = some (some conn) ∧ conn.clientId = cid ∧
+      conn.state = .connected ∧ conn.receiveKey = c.netcode.connectToken.clientToServerKey ∧
+      conn.sendKey = c.netcode.connectToken.serverToClientKey := by
+    cases hc : s.netcode.clients[0]? with
+    | none => rw [hc] at f5; cases f5
+    | some o =>
+      cases o with
+      | none => rw [hc] at f5; cases f5
+      | some conn =>
+        rw [hc] at f5
+        simp only [Option.map_some, Option.some.injEq, Prod.mk.injEq] at f5
+        exact ⟨0, conn, hc, f5.1, f5.2.1, f5.2.2.1, f5.2.2.2⟩
+  have hsorted : SL.SMap.Sorted s.renet.conns := by
+    rw [f2]
+    exact SL.SMap.sorted_insert [] cid _ SL.SMap.sorted_nil
+  have hfind : SMap.find? s.renet.conns cid = some (Conn.fromChannels cfg.budget cfg.recv cfg.send).setConnected := by
+    rw [f2]
+    simp [SMap.find?]
+  exact { cli := Or.inr f1, sorted := hsorted, srv := ⟨_, hfind, Or.inr rfl⟩, ySeq := rfl, sealedC := rfl,
+          sealedS := rfl, subC := rfl, subCU := rfl, obtS := rfl, subS := rfl, subSU := rfl, obtC := rfl,
+          cliConnected := f3, cliId := f4, slot := hslot, proto := f6, emC := rfl, emS := rfl }
+
 /-- the counter-range side conditions of `CountersOK` (C01S), for the client → server direction, on the FINAL state -/
 structure CountersUp (cfg : Cfg) (fs : FS) : Prop where
   chan : ∀ c ∈ cfg.send, c.id < 256
@@ -1547,5 +1796,158 @@ theorem full_stack {a : AEAD} (hl : a.Laws) {cfg : Cfg} {cid : Nat} {fs0 fs : FS
   obtain ⟨d0, h0, i0⟩ := rel_of_fresh a he
   obtain ⟨d, h, hi⟩ := run_sim hl ops fs0 fs d0 h0 i0 hok hr
   exact rel_concl h hi
+
+
+/-! ### 3e. the ghost records are records of EMITTED datagrams
+
+  `sealedC` / `sealedS` are defined by re-running `generate_payload_packet` next to `send_packets`; this section ties
+  them to the socket: the datagram of every record was handed to `send_to` by that `send_packets` call (`emC` / `emS`). -/
+
+theorem clientSendLoop_em (a : AEAD) : ∀ (ps : List Bytes) (nc nc' : NetcodeClient) (out out' : Array Dgram)
+    (e : Option NetcodeError), clientSendLoop a nc ps out = .ok (e, nc', out') →
+    (∀ y ∈ out.toList, y ∈ out'.toList) ∧ ∀ x ∈ sealsC a nc ps, x.dgram ∈ out'.toList.map (·.2)
+  | [], nc, nc', out, out', e, h => by
+    cases h
+    exact ⟨fun _ hy => hy, fun x hx => by cases hx⟩
+  | p :: rest, nc, nc', out, out', e, h => by
+    simp only [clientSendLoop] at h
+    simp only [sealsC]
+    cases hg : nc.generatePayloadPacket a p with
+    | panic m => rw [hg] at h; cases h
+    | err e' =>
+      rw [hg] at h
+      cases h
+      exact ⟨fun _ hy => hy, fun x hx => by cases hx⟩
+    | ok v =>
+      obtain ⟨⟨addr, d⟩, nc1⟩ := v
+      rw [hg] at h
+      dsimp only at h ⊢
+      obtain ⟨m1, m2⟩ := clientSendLoop_em a rest nc1 nc' _ out' e h
+      refine ⟨fun y hy => m1 y (by simp [hy]), ?_⟩
+      intro x hx
+      rcases List.mem_cons.mp hx with rfl | hx
+      · exact List.mem_map.mpr ⟨(addr, d), m1 _ (by simp), rfl⟩
+      · exact m2 x hx
+
+theorem clientSendPackets_em {a : AEAD} {g g' : ClientGlue} {res : Except TransportError Unit} {out : Array Dgram}
+    (h : clientSendPackets a g = .ok (res, g', out)) : ∀ x ∈ cliSeals a g, x.dgram ∈ out.toList.map (·.2) := by
+  unfold clientSendPackets at h
+  unfold cliSeals
+  cases hn : g.netcode.disconnectReason with
+  | some r => intro x hx; cases hx
+  | none =>
+    rw [hn] at h
+    dsimp only at h ⊢
+    obtain ⟨⟨rc, packets⟩, h1, h2⟩ := CI.bind_ok_cases h
+    obtain ⟨⟨e, nc, out1⟩, h3, h4⟩ := CI.bind_ok_cases h2
+    rw [h1]
+    dsimp only
+    have := (clientSendLoop_em a packets _ _ _ _ _ h3).2
+    cases e with
+    | none => cases h4; exact this
+    | some e => cases h4; exact this
+
+theorem serverSendClient_em (a : AEAD) (id : Nat) : ∀ (ps : List Bytes) (ns ns' : NetcodeServer) (out out' : Array Dgram),
+    serverSendClient a ns id ps out = .ok (ns', out') →
+    (∀ y ∈ out.toList, y ∈ out'.toList) ∧ ∀ x ∈ sealsS a id ns ps, x.dgram ∈ out'.toList.map (·.2)
+  | [], ns, ns', out, out', h => by
+    cases h
+    exact ⟨fun _ hy => hy, fun x hx => by cases hx⟩
+  | p :: rest, ns, ns', out, out', h => by
+    simp only [serverSendClient] at h
+    simp only [sealsS]
+    cases hg : ns.generatePayloadPacket a id p with
+    | panic m => rw [hg] at h; cases h
+    | err e' =>
+      rw [hg] at h
+      cases h
+      exact ⟨fun _ hy => hy, fun x hx => by cases hx⟩
+    | ok v =>
+      obtain ⟨⟨addr, d⟩, ns1⟩ := v
+      rw [hg] at h
+      dsimp only at h ⊢
+      obtain ⟨m1, m2⟩ := serverSendClient_em a id rest ns1 ns' _ out' h
+      refine ⟨fun y hy => m1 y (by simp [hy]), ?_⟩
+      intro x hx
+      rcases List.mem_cons.mp hx with rfl | hx
+      · exact List.mem_map.mpr ⟨(addr, d), m1 _ (by simp), rfl⟩
+      · exact m2 x hx
+
+theorem serverSendLoop_em (a : AEAD) (cid : Nat) : ∀ (l : List Nat) (g g' : ServerGlue) (out out' : Array Dgram),
+    serverSendLoop a g l out = .ok (g', out') →
+    (∀ y ∈ out.toList, y ∈ out'.toList) ∧ ∀ x ∈ srvSeals a cid g l, x.dgram ∈ out'.toList.map (·.2)
+  | [], g, g', out, out', h => by
+    cases h
+    exact ⟨fun _ hy => hy, fun x hx => by cases hx⟩
+  | id :: rest, g, g', out, out', h => by
+    obtain ⟨rs, ps, ns, out1, h1, h2, h3⟩ := GI.sendLoop_cons h
+    obtain ⟨o2', h2'⟩ := sendClient_out_irrel a id ps _ _ _ _ #[] h2
+    obtain ⟨m1, m2⟩ := serverSendClient_em a id ps _ _ _ _ h2
+    obtain ⟨n1, n2⟩ := serverSendLoop_em a cid rest _ g' out1 out' h3
+    refine ⟨fun y hy => n1 y (m1 y hy), ?_⟩
+    intro x hx
+    simp only [srvSeals, h1, h2'] at hx
+    rcases List.mem_append.mp hx with hx | hx
+    · split at hx
+      · obtain ⟨y, hy, e⟩ := List.mem_map.mp (m2 x hx)
+        exact List.mem_map.mpr ⟨y, n1 y hy, e⟩
+      · cases hx
+    · exact n2 x hx
+
+/-- every ghost record's datagram is in the emission history of the side that made it -/
+def Emitted (fs : FS) : Prop :=
+  (∀ e ∈ fs.sealedC, e.dgram ∈ fs.emC.map (·.2)) ∧ (∀ e ∈ fs.sealedS, e.dgram ∈ fs.emS.map (·.2))
+
+theorem step_emitted {a : AEAD} {cid : Nat} {fs fs' : FS} {op : FSOp} (h : Emitted fs)
+    (hs : fs.step a cid op = some fs') : Emitted fs' := by
+  cases op with
+  | cliSendPackets =>
+    simp only [FS.step] at hs
+    split at hs
+    · rename_i res g' out ho
+      cases hs
+      refine ⟨?_, h.2⟩
+      intro e he
+      simp only [List.map_append, List.mem_append]
+      rcases List.mem_append.mp he with he | he
+      · exact Or.inl (h.1 e he)
+      · exact Or.inr (clientSendPackets_em ho e he)
+    · cases hs
+  | srvSendPackets =>
+    simp only [FS.step] at hs
+    split at hs
+    · rename_i g' out ho
+      cases hs
+      refine ⟨h.1, ?_⟩
+      intro e he
+      simp only [List.map_append, List.mem_append]
+      rcases List.mem_append.mp he with he | he
+      · exact Or.inl (h.2 e he)
+      · exact Or.inr ((serverSendLoop_em a cid _ _ _ _ _ ho).2 e he)
+    · cases hs
+  | cliSend ch m => simp only [FS.step] at hs; split at hs <;> cases hs; exact h
+  | cliRecv ch => simp only [FS.step] at hs; split at hs <;> cases hs <;> exact h
+  | cliTick dt => simp only [FS.step] at hs; split at hs <;> cases hs; exact h
+  | cliDisconnect => simp only [FS.step, Option.some.injEq] at hs; subst hs; exact h
+  | cliUpdate d inbox => simp only [FS.step] at hs; split at hs <;> cases hs; exact h
+  | srvSend ch m => simp only [FS.step] at hs; split at hs <;> cases hs; exact h
+  | srvRecv ch => simp only [FS.step] at hs; split at hs <;> cases hs <;> exact h
+  | srvTick dt => simp only [FS.step] at hs; split at hs <;> cases hs; exact h
+  | srvDisconnect => simp only [FS.step, Option.some.injEq] at hs; subst hs; exact h
+  | srvUpdate d inbox => simp only [FS.step] at hs; split at hs <;> cases hs; exact h
+  | cliTransportDisconnect => simp only [FS.step] at hs; split at hs <;> cases hs; exact h
+  | srvDisconnectAll => simp only [FS.step] at hs; split at hs <;> cases hs; exact h
+
+theorem run_emitted {a : AEAD} {cid : Nat} : ∀ (ops : List FSOp) (fs fs' : FS), Emitted fs →
+    fs.run a cid ops = some fs' → Emitted fs'
+  | [], fs, fs', h, hr => by simp only [FS.run, Option.some.injEq] at hr; subst hr; exact h
+  | op :: ops, fs, fs', h, hr => by
+    simp only [FS.run] at hr
+    cases hs : fs.step a cid op with
+    | none => rw [hs] at hr; cases hr
+    | some fs1 => rw [hs] at hr; exact run_emitted ops fs1 fs' (step_emitted h hs) hr
+
+theorem emitted_of_fresh {cfg : Cfg} {cid : Nat} {fs : FS} (h : RenetFresh cfg cid fs) : Emitted fs :=
+  ⟨fun e he => (by rw [h.sealedC] at he; cases he), fun e he => (by rw [h.sealedS] at he; cases he)⟩
 
 end RenetVerif.FullStack
